@@ -9,6 +9,21 @@ Ln = z3.Function('Ln', z3.RealSort(), z3.RealSort())
 Sqrt = z3.Function('Sqrt', z3.RealSort(), z3.RealSort())
 
 
+def round_rel(I, x):
+    """round-half-even as a relation: a fresh integer n nearest to x (ties to even); recorded as ghost"""
+    if not is_z3(x):
+        return float(round(x))
+    if z3.is_int(x):
+        return x
+    n = I.ctx.fresh('rnd', 'int')
+    h = z3.RealVal('1/2')
+    nr = z3.ToReal(n)
+    # (which of the two candidates a tie picks -- the even one -- is left open: a weaker, still sound assumption)
+    I.ctx.assume(z3.And(nr - h <= x, x <= nr + h))
+    I.ctx.ghost.setdefault('rounds', []).append((x, n))
+    return nr
+
+
 def round_half_even(x):
     if z3.is_int(x):
         return x
@@ -178,6 +193,92 @@ def np_select(I, a, k):
     return NDArr(choices[0].shape, out)
 
 
+def _bool_and(p, q):
+    if p is False or q is False:
+        return False
+    if p is True:
+        return q
+    if q is True:
+        return p
+    return z3.And(p, q)
+
+
+def np_logical_and(I, a, k):
+    x, y = a
+    if isinstance(x, NDArr) or isinstance(y, NDArr):
+        xs = x.items if isinstance(x, NDArr) else [x] * len(y.items)
+        ys = y.items if isinstance(y, NDArr) else [y] * len(x.items)
+        shape = x.shape if isinstance(x, NDArr) else y.shape
+        return NDArr(shape, [_bool_and(_truthy(I, p), _truthy(I, q)) for p, q in zip(xs, ys)], 'bool')
+    return _bool_and(_truthy(I, x), _truthy(I, y))
+
+
+def np_where(I, a, k):
+    if len(a) != 3:
+        raise Unsupported('np.where with one argument')
+    c, x, y = a
+    n = None
+    shape = None
+    for v in (c, x, y):
+        if isinstance(v, NDArr):
+            n, shape = len(v.items), v.shape
+    if n is None:
+        ci = _truthy(I, c)
+        if isinstance(ci, bool):
+            return x if ci else y
+        p, q = num_pair(x, y)
+        return z3.If(ci, p, q)
+    cs = c.items if isinstance(c, NDArr) else [c] * n
+    xs = x.items if isinstance(x, NDArr) else [x] * n
+    ys = y.items if isinstance(y, NDArr) else [y] * n
+    out = []
+    for ci, xv, yv in zip(cs, xs, ys):
+        ci = _truthy(I, ci)
+        if isinstance(ci, bool):
+            out.append(xv if ci else yv)
+        else:
+            p, q = num_pair(xv, yv)
+            out.append(z3.If(ci, p, q))
+    return NDArr(shape, out)
+
+
+def np_isclose(I, a, k):
+    """numpy.isclose(a, b, rtol=1e-05, atol=1e-08): |a - b| <= atol + rtol*|b|"""
+    x, y = a[0], a[1]
+    rtol = k.get('rtol', a[2] if len(a) > 2 else 1e-05)
+    atol = k.get('atol', a[3] if len(a) > 3 else 1e-08)
+
+    def one(p, q):
+        p, q = num_pair(p, q)
+        p = z3.ToReal(p) if z3.is_int(p) else p
+        q = z3.ToReal(q) if z3.is_int(q) else q
+        ab = lambda t: z3.If(t >= 0, t, -t)
+        return ab(p - q) <= z3_of(atol) + z3_of(rtol) * ab(q)
+    if isinstance(x, NDArr) or isinstance(y, NDArr):
+        n = len(x.items) if isinstance(x, NDArr) else len(y.items)
+        xs = x.items if isinstance(x, NDArr) else [x] * n
+        ys = y.items if isinstance(y, NDArr) else [y] * n
+        return NDArr(x.shape if isinstance(x, NDArr) else y.shape, [one(p, q) for p, q in zip(xs, ys)], 'bool')
+    return one(x, y)
+
+
+def np_minmax(ismin):
+    def f(I, a, k):
+        x, y = a
+        def one(p, q):
+            if not is_z3(p) and not is_z3(q):
+                return min(p, q) if ismin else max(p, q)
+            p, q = num_pair(p, q)
+            return z3.If(p <= q, p, q) if ismin else z3.If(p >= q, p, q)
+        if isinstance(x, NDArr) or isinstance(y, NDArr):
+            n = len(x.items) if isinstance(x, NDArr) else len(y.items)
+            xs = x.items if isinstance(x, NDArr) else [x] * n
+            ys = y.items if isinstance(y, NDArr) else [y] * n
+            return NDArr(x.shape if isinstance(x, NDArr) else y.shape, [one(p, q) for p, q in zip(xs, ys)])
+        return one(x, y)
+    return f
+
+
 def np_transpose(I, a, k):
     v = a[0]
     if len(v.shape) == 2:
@@ -276,7 +377,7 @@ def nd_attr(I, v, name):
     if name == 'shape':
         return v.shape
     if name == 'round':
-        return Builtin('ndarray.round', lambda I, a, k: NDArr(v.shape, [round_half_even(z3_of(x)) if is_z3(x) else float(round(x)) for x in v.items]))
+        return Builtin('ndarray.round', lambda I, a, k: NDArr(v.shape, [round_rel(I, x) for x in v.items]))
     if name == 'any':
         return Builtin('ndarray.any', lambda I, a, k: np_any(I, [v], {}))
     if name == 'all':
@@ -316,5 +417,10 @@ def namespace():
         'logical_not': Builtin('np.logical_not', np_logical_not), 'logical_or': Builtin('np.logical_or', np_logical_or),
         'select': Builtin('np.select', np_select), 'transpose': Builtin('np.transpose', np_transpose),
         'dot': Builtin('np.dot', np_dot), 'ndarray': nd, 'number': number,
+        'logical_and': Builtin('np.logical_and', np_logical_and), 'where': Builtin('np.where', np_where),
+        'isclose': Builtin('np.isclose', np_isclose), 'minimum': Builtin('np.minimum', np_minmax(True)),
+        'maximum': Builtin('np.maximum', np_minmax(False)), 'absolute': Builtin('np.absolute', np_abs),
+        'round': Builtin('np.round', lambda I, a, k: nd_attr(I, a[0], 'round').fn(I, [], {}) if isinstance(a[0], NDArr) else round_half_even(z3_of(a[0]))),
+        'float64': Builtin('np.float64', lambda I, a, k: a[0]),
     }
     return Namespace('numpy', m)
